@@ -300,12 +300,12 @@ impl Prop for C08 {
         Ok(())
     }
     fn rule(&self) -> String {
-        "generated (site |lat|<=70 with half the mass in 45-70, GMT within 2 h, 8 named methods x 14 policies, substitute latitude in [-66,66], date mixture; interval-consuming policies (half-of-night, minutes-from-maghrib 'invalid') only with angle-based methods, optionally with Fajr/Isha intervals in [1,120]). Each case is compared with the same call under no policy. One case in 16 is a nearest-latitude 'always' policy with the substitute latitude 3e-7..3e-5 deg from the site's own, further ones within 1e-8..1e-3 deg or exactly equal; one in 31 has the latitude bisected onto the polar-day limit; all four rounding modes; every case is preceded by a priming call with a sibling input. Non-trivial = a day on which some time is missing conventionally, or an 'always' policy; distinct by hash of the case".into()
+        "generated (site |lat|<=70 with half the mass in 45-70, GMT within 2 h, 8 named methods x 14 policies, substitute latitude in [-66,66], date mixture; interval-consuming policies (half-of-night, minutes-from-maghrib 'invalid') only with angle-based methods, optionally with Fajr/Isha intervals in [1,120]). Each case is compared with the same call under no policy. One case in 16 is a nearest-latitude 'always' policy with the substitute latitude 3e-7..3e-5 deg from the site's own, further ones within 1e-8..1e-3 deg or exactly equal; one in 31 has the latitude bisected onto the polar-day limit; 3 in 40 sit on the polar-night edge with an interval-defined Fajr/Isha under an 'only if invalid' policy or angle-based; all four rounding modes; every case is preceded by a priming call with a sibling input. Non-trivial = a day on which some time is missing conventionally, or an 'always' policy; distinct by hash of the case".into()
     }
     fn assumptions(&self) -> Vec<String> {
         vec![
             "conventional reference = same call with ExtremeLatitudeMethod::None; for policies that consume the Fajr/Isha intervals as fallback amounts the reference also zeroes those intervals".into(),
-            "an interval-defined Fajr/Isha counts as conventionally valid only if its nominal angle event exists per the oracle with 0.05 deg margin (the library decides validity on the angle event and then re-applies the interval)".into(),
+            "'conventionally valid' = Ok in the no-policy result, also for an interval-defined Fajr/Isha whose nominal 0-degree event does not exist (polar-night edge; a dedicated class of 3/40 of the cases puts |lat| 66.4-69.6 within five weeks of the winter solstice with Umm al-Qurra / fixed Isha / custom intervals)".into(),
             "clause (c) is asserted for all seven entries; for Imsaak not under the policies that consume the intervals".into(),
         ]
     }
